@@ -22,12 +22,15 @@ func advTerm(m uint32) string {
 var capOrder = []string{"synchronizedUpdate", "unicodeCore", "colorThemeUpdates", "inBandResize", "kittyKeyboard", "kittyGraphics",
 	"sixels", "reportSizeChars", "reportSizePixels", "explicitWidth", "rgb", "styledUnderlines", "osc4", "osc10", "osc11", "osc176"}
 
-func capsStreams(cfg *hx.Config) (*hx.Stream, *hx.Stream) {
+func capsStreams(cfg *hx.Config) (*hx.Stream, *hx.Stream, *hx.Stream) {
 	os.Unsetenv("COLORTERM")
 	os.Unsetenv("VAXIS_GRAPHICS")
 	os.Unsetenv("VAXIS_FORCE_LEGACY_SGR")
 	caps := hx.NewStream("caps", "model.Gate", "adv * list bool", "c07_caps_violations", "c07_caps_violations")
 	caps.ShardMax = 4000
+	width := hx.NewStream("width", "model.Gate", "bool * bool * bool * list (Z * Z * Z) * list Z", "c07_width_violations", "c07_width_violations")
+	width.ShardMax = 2000
+	probes := []string{"a", "漢", "👍🏽", "👩‍🚀", "é", "❤️", "🇩🇪", "", "́"}
 	gate := hx.NewStream("gate", "model.RenderTypes model.Gate", "caps * list tok", "c07_gate_violations", "c07_gate_violations")
 	gate.ShardMax = 60
 	var masks []uint32
@@ -62,6 +65,9 @@ func capsStreams(cfg *hx.Config) (*hx.Stream, *hx.Stream) {
 	for k, m := range masks {
 		prof := hx.ProfileFromMask(m, 3, 8)
 		prof.NoCPR = nocpr[k]
+		if k%5 == 0 && prof.XTVersion != "" {
+			prof.XTVersion = "kitty(0.31.0)" // quirk: shaped emoji but no ZWJ sequences
+		}
 		fc := hx.NewFakeConsole(prof)
 		vx, err := vaxis.New(vaxis.Options{WithConsole: fc, NoSignals: true, DisableMouse: true})
 		if err != nil {
@@ -75,6 +81,17 @@ func capsStreams(cfg *hx.Config) (*hx.Stream, *hx.Stream) {
 			obsJ = append(obsJ, got[n])
 		}
 		caps.Add(hx.Tuple(advTerm(m), hx.List(obs)), map[string]interface{}{"advertised_mask": m, "caps": obsJ, "no_cursor_position_reply": nocpr[k]}, m != 0, fmt.Sprintf("bits=%d", popcount(m)), fmt.Sprintf("nocpr=%v", nocpr[k]))
+		// width method: RenderedWidth against gwidth under each method
+		{
+			var pw, ow []string
+			for _, g := range probes {
+				pw = append(pw, hx.Tuple(fmt.Sprint(vaxis.VerifGwidth(g, 0)), fmt.Sprint(vaxis.VerifGwidth(g, 1)), fmt.Sprint(vaxis.VerifGwidth(g, 2))))
+				ow = append(ow, fmt.Sprint(vx.RenderedWidth(g)))
+			}
+			width.Add(hx.Tuple(hx.Bool(got["unicodeCore"]), hx.Bool(got["explicitWidth"]), hx.Bool(got["noZWJ"]), hx.List(pw), hx.List(ow)),
+				map[string]interface{}{"advertised_mask": m, "unicodeCore": got["unicodeCore"], "explicitWidth": got["explicitWidth"], "noZWJ": got["noZWJ"]},
+				got["unicodeCore"] || got["explicitWidth"] || got["noZWJ"], fmt.Sprintf("u=%v e=%v n=%v", got["unicodeCore"], got["explicitWidth"], got["noZWJ"]))
+		}
 		// vocabulary: a few frames with every kind of style, wide cells and a cursor
 		if !cfg.Thorough() || k%16 == 0 {
 			fc.Take()
@@ -105,7 +122,7 @@ func capsStreams(cfg *hx.Config) (*hx.Stream, *hx.Stream) {
 		}
 		hx.WithTimeout(2*time.Second, vx.Close)
 	}
-	return caps, gate
+	return caps, gate, width
 }
 
 func popcount(m uint32) int {
@@ -156,7 +173,7 @@ func main() {
 	for i := 0; i < 50; i++ {
 		add(vaxis.Color(cfg.Rand.Uint32()), "rawbits")
 	}
-	capsS, gateS := capsStreams(cfg)
-	cfg.Write("C07", "caps: fake terminals answering exactly the start-up queries of a capability subset (quick: none, all, every single capability, every pair, 400 random subsets of 17; thorough: all 2^17), capabilities reported by Vaxis compared with those advertised; gate: on such terminals three frames (render, render with cursor, refresh) with direct/indexed colours, styled and coloured underlines, hyperlinks, wide and zero-width cells, every token written classified by allowed; colours: default, indexed, all triples over a set of boundary channel levels, uniformly random RGB, raw 32-bit values; non-trivial = RGB-tagged (goes through the palette search); distinct by (colour,result)",
-		[]*hx.Stream{s, capsS, gateS}, nil, nil)
+	capsS, gateS, widthS := capsStreams(cfg)
+	cfg.Write("C07", "width: on the same terminals (some identifying as kitty: noZWJ quirk) RenderedWidth of probe graphemes (narrow, wide, emoji with modifier, ZWJ sequence, combining, VS16, flag, empty, lone mark) against the library's gwidth under the method the reported capabilities select; caps: fake terminals answering exactly the start-up queries of a capability subset (quick: none, all, every single capability, every pair, 400 random subsets of 17; thorough: all 2^17), capabilities reported by Vaxis compared with those advertised; gate: on such terminals three frames (render, render with cursor, refresh) with direct/indexed colours, styled and coloured underlines, hyperlinks, wide and zero-width cells, every token written classified by allowed; colours: default, indexed, all triples over a set of boundary channel levels, uniformly random RGB, raw 32-bit values; non-trivial = RGB-tagged (goes through the palette search); distinct by (colour,result)",
+		[]*hx.Stream{s, capsS, gateS, widthS}, nil, nil)
 }
